@@ -1,3 +1,32 @@
 (* C03 — property theorems (statements only; proofs live in Proofs*.v). *)
 From Coq Require Import ZArith QArith Bool List.
-Require Import QV.C03.Model QV.C03.Spec.
+Require Import QV.C03.Model QV.C03.Spec QV.C03.Proofs QV.C03.Proofs2 QV.C03.Proofs3.
+
+(* The operational model (scope objects, keys()/as_dict(), eager mapping inside atomic parents, per-class order of
+   evaluation) refines the ideal lazy verdict over the list of obligations of all reached nodes: it agrees with it,
+   or reports a missing parameter, or reports another error where the ideal verdict reports a missing value. *)
+Theorem C03_refines : forall p s drop, wf p -> refines (run p s drop) (verdict p (lookup s) drop).
+Proof. intros p s drop H. exact (run_ref p H s drop). Qed.
+Print Assumptions C03_refines.
+
+(* (c, only-if) a program (or None) is returned only if every obligation of every reached node holds; in particular
+   every visible constraint is true in the environment its node sees; the result is a program iff something plays *)
+Theorem C03_constraints_sound : forall p s drop b, wf p -> run p s drop = Ok b ->
+  (forall c r, In (c, r) (visible p (lookup s) drop) -> ceval r c = Some true)
+  /\ none_missing p (lookup s) drop = true /\ b = plays p (lookup s) drop.
+Proof.
+  intros p s drop b Hwf Hr. destruct (accepted_sound p s drop b Hwf Hr) as [H1 H2].
+  split; [apply all_hold_visible; auto|split; [apply all_hold_none_missing; auto|auto]].
+Qed.
+Print Assumptions C03_constraints_sound.
+
+(* (c, never rejects wrongly) a constraint violation is raised only if a visible constraint is false *)
+Theorem C03_violation_justified : forall p s drop, wf p -> run p s drop = Err Violated ->
+  exists c r, In (c, r) (visible p (lookup s) drop) /\ ceval r c = Some false.
+Proof. exact violated_sound. Qed.
+Print Assumptions C03_violation_justified.
+
+(* (d) a missing needed value never yields a program *)
+Theorem C03_missing : forall p s drop b, wf p -> none_missing p (lookup s) drop = false -> run p s drop <> Ok b.
+Proof. exact missing_never_ok. Qed.
+Print Assumptions C03_missing.
